@@ -30,7 +30,8 @@ BigText(e) == "0x" \o (IF e.hi > 0 THEN Hex(e.hi) \o HexPad(e.lo, 6) ELSE Hex(e.
 RECURSIVE Toks(_, _)
 Toks(e, top) ==
     LET wrap(ts) == IF top THEN ts ELSE <<"(">> \o ts \o <<")">> IN
-    CASE e.k = "num" -> IF e.v < 0 THEN wrap(<<"-", ToString(0 - e.v)>>) ELSE <<NumText(e.v)>>
+    CASE e.k = "num" -> IF e.v < 0 THEN wrap(<<"-", ToString(0 - e.v)>>)
+                        ELSE IF "dec" \in DOMAIN e /\ e.dec THEN <<ToString(e.v)>> ELSE <<NumText(e.v)>>
       [] e.k = "id"  -> <<e.n>>
       [] e.k = "big" -> IF e.neg THEN wrap(<<"-", BigText(e)>>) ELSE <<BigText(e)>>
       [] e.k = "un"  -> wrap(<<"-">> \o Toks(e.e, FALSE))
